@@ -305,7 +305,7 @@ func hugeLens(tier string) []int {
 
 func TestHuge(t *testing.T) {
 	pbt.Run(t, pbt.Sub[Huge]{
-		Name: "huge", Quick: 360, Thorough: 6000,
+		Name: "huge", Quick: 360, Thorough: 3000,
 		Gen: func(t *rapid.T) Huge {
 			k := rapid.IntRange(15, 22).Draw(t, "log2")
 			if k > 20 && rapid.IntRange(0, 3).Draw(t, "keep_big") != 0 {
